@@ -135,7 +135,15 @@ func runC16(c *Ctx, faults bool) {
 					p2 = ""
 				}
 			}
-			_, code := w.Git(u.dir, lockArgs...)
+			lockDir := u.dir
+			if i := strings.LastIndex(p, "/"); i > 0 && p2 == "" && t.Bool(1, 4, "lock-from-subdirectory") {
+				if st, err := os.Stat(filepath.Join(u.dir, p[:i])); err == nil && st.IsDir() {
+					lockDir = filepath.Join(u.dir, p[:i])
+					lockArgs = []string{"lfs", "lock", p[i+1:]}
+					c.Probe("lock-from-subdirectory")
+				}
+			}
+			_, code := w.Git(lockDir, lockArgs...)
 			if p2 != "" {
 				if c.sawEvent(locks, evBefore, "granted", u.name, p2) {
 					delete(u.bitStale, p2)
@@ -189,7 +197,20 @@ func runC16(c *Ctx, faults bool) {
 				removedFile = true
 			}
 			dirty := isDirty(w, u.dir, p)
-			_, code := w.Git(u.dir, args...)
+			// sometimes the command is run from the file's directory
+			runDir := u.dir
+			if i := strings.LastIndex(p, "/"); i > 0 && !removedFile && t.Bool(1, 3, "unlock-from-subdirectory") {
+				if st, err := os.Stat(filepath.Join(u.dir, p[:i])); err == nil && st.IsDir() {
+					runDir = filepath.Join(u.dir, p[:i])
+					for k, a := range args {
+						if a == p {
+							args[k] = p[i+1:]
+						}
+					}
+					c.Probe("unlock-from-subdirectory")
+				}
+			}
+			_, code := w.Git(runDir, args...)
 			if removedFile {
 				// bring the file back so that later steps have something to look at
 				w.Git(u.dir, "revert", "--no-edit", "HEAD")
